@@ -456,6 +456,14 @@ def section_history():
                 same = (v is w) if (v is zero or v is one or w is zero or w is one) else np.allclose(np.asarray(v), np.asarray(w), atol=1e-9)
                 if not same:
                     fail("history", "value depends on the request history", hermitian=hermitian, seed=seed, index=(s, i, j, n))
+            # the caller's own unitarity check: a product declared Hermitian whose factors start with the identity sentinel
+            if hermitian:
+                from pymablock.series import cauchy_dot_product
+                chk = cauchy_dot_product(out[2], out[1], hermitian=True)
+                for i in range(2):
+                    for n in range(4):
+                        chk[i, i, n]
+                        chk[i, 1 - i, n]
             for k, (v, cp) in held.items():
                 if cp is not None and not np.array_equal(np.asarray(v), cp):
                     fail("history", "a value already handed to the caller was modified by a later evaluation", hermitian=hermitian, seed=seed, index=k)
